@@ -29,12 +29,16 @@ def template_init(with_pdks=False):
     import vlsirtools  # noqa
     from . import seams
 
+    repo = os.environ.get("VERIF_REPO", "/repo")
+    if not os.path.abspath(h.__file__).startswith(os.path.abspath(repo) + os.sep):
+        raise RuntimeError(f"hdl21 imported from {h.__file__}, expected under {repo}")
     patched = seams.install_set_seam(h)
     _TEMPLATE["h"] = h
     _TEMPLATE["seam_classes"] = patched
     if with_pdks:
+        repo = os.environ.get("VERIF_REPO", "/repo")
         for p in ("Sky130", "Gf180", "Asap7"):
-            d = f"/repo/pdks/{p}"
+            d = f"{repo}/pdks/{p}"
             if d not in sys.path:
                 sys.path.insert(0, d)
         import hdl21.pdk.sample_pdk as sample_pdk  # noqa
